@@ -69,13 +69,15 @@ Judge(t, pl, V) ==
   IF ~EncMeet(vol, MeshVol6S(pl, em, t.tris, t.trifacet)) THEN "REJECT Volume" ELSE
   IF ~EncMeet(vol, MeshVol6S(pl, mv, t.mesh.faces, mlabel)) THEN "REJECT MeshVolume" ELSE
   IF ~FloatVolOK(t.mesh.vol6s, vol) THEN "REJECT FloatVolume" ELSE
+  \* 32-bit safety of ScaleH for the large factors (change of units by 10^3 .. 10^4)
+  IF \E h \in V : \E c \in 1..3 : AbsI(h[c]) > 2147483647 \div t.scale.sn THEN "OOD scale-overflow" ELSE
   IF SeqSet(t.scale.verts) # sv THEN "REJECT Scaling" ELSE
   "ACCEPT"
 
 Verdict(t) ==
   (* the second construction shrinks the shape by at most 3, keeping its vertices apart on the scale *)
   (* of the code's merge tolerances (see Separated)                                                  *)
-  IF ~(WellFormed(t.facets) /\ t.Q \in 1..1000 /\ t.scale.sn \in 1..8 /\ t.scale.sd \in 1..8
+  IF ~(WellFormed(t.facets) /\ t.Q \in 1..1000 /\ t.scale.sn \in (1..8) \cup {1000, 2500, 10000} /\ t.scale.sd \in 1..8
        /\ 3 * t.scale.sn >= t.scale.sd) THEN "OOD input" ELSE
   LET pl == Planes(t.facets)
       X == CrossTab(pl)
